@@ -22,6 +22,9 @@ Subs(v) == {SubOf(o) : o \in Opts(Shape(v), 1)}
 (* one random single request, one random varn request (unit strides) *)
 (* a bound variable ranging over a random one-element subset is drawn once per evaluation *)
 RandReqs(v)  == {[v |-> v, subs |-> <<s>>] : s \in RandomSubset(1, Subs(v))}
+(* requests that make aggregation work hard: strided in the slowest dimension with several rows *)
+Hard(v)      == {s \in Subs(v) : Len(s.stride) >= 1 /\ s.stride[1] = 2 /\ s.count[1] >= 2}
+HardReqs(v)  == IF Hard(v) = {} THEN {} ELSE {[v |-> v, subs |-> <<s>>] : s \in RandomSubset(1, Hard(v))}
 Unit(v)      == {s \in Subs(v) : \A d \in 1..Len(s.stride) : s.stride[d] = 1}
 RandVarns(v) == {[v |-> v, subs |-> <<a, b, c>>] : a \in RandomSubset(1, Unit(v)), b \in RandomSubset(1, Unit(v)), c \in RandomSubset(1, Unit(v))}
 
@@ -46,6 +49,7 @@ PostIt(kind, r) ==
 
 NNext ==
     \/ \E v \in 0..(NV - 1), kind \in PostKinds : \E r \in RandReqs(v) : PostIt(kind, r)
+    \/ \E v \in 0..(NV - 1), kind \in PostKinds : \E r \in HardReqs(v) : PostIt(kind, r)
     \/ \E v \in 0..2, kind \in PostKinds : \E r \in RandVarns(v) : PostIt(kind, r)
     \/ \E named \in SUBSET Labels : named # {} /\ Wait(named, "NC_NOERR") /\ tk' = tk
     \/ \E q \in Labels : Cancel({q}, "NC_NOERR") /\ tk' = tk
